@@ -239,6 +239,19 @@ def enum_units(tier, seed):
                 # one's needs three, and the other way round): sized with one and emitted with the other shifts every later label
                 for org_o, org_w in ((0x008000, 0x018000), (0x018000, 0x008000)):
                     cases.append({"rom": "low", "files": {}, "ir": [{"k": "org", "a": org_o}, outer, {"k": "org", "a": org_w}] + wrap + sp("lb_end")})
+    # a label that its scope defines a second time further down (accepted with a warning), in a bank of another operand width,
+    # or a label and a later `=` of the same name: an unsized operand between the two definitions is sized with the first and
+    # would be emitted with the last
+    db = lambda v: {"k": "data", "d": "db", "es": [L(v)]}
+    for org_1, org_2 in ((0x008000, 0x018000), (0x018000, 0x008000), (0x008000, 0x008100)):
+        for second in ("label", "late"):
+            for ref in (lda(["id", "lb_d"]), {"k": "ins", "m": "sta", "shape": ["", None, "x"], "sfx": "", "e": ["id", "lb_d"]},
+                        {"k": "ins", "m": "lda", "shape": ["", None, None], "sfx": "w", "e": ["id", "lb_d"]}):
+                d2 = [{"k": "label", "n": "lb_d"}, db(2)] if second == "label" else [{"k": "const", "n": "lb_d", "e": L(0x12 if org_1 > 0xFFFF else 0x123456), "eager": False}]
+                body = [{"k": "label", "n": "lb_d"}, db(1), ref] + sp("lb_mid") + [{"k": "org", "a": org_2}] + d2 + sp("lb_end")
+                for ctx in ("root", "block"):
+                    wrap = body if ctx == "root" else [{"k": "block", "b": body}]
+                    cases.append({"rom": "low", "files": {}, "ir": [{"k": "org", "a": org_1}] + wrap})
     return {"units": [{"cases": cases}], "exhaustive": False}
 
 
